@@ -167,6 +167,11 @@ JudgeHist(t, i, T, v, e) ==
   /\ Check(t, i, "EncodableDependsOnHistory", \A k \in K : e.sts[k] = e.sts[1])
   /\ Check(t, i, "DerDependsOnHistory", \A k \in K : (e.sts[k] = "ok" /\ e.sts[1] = "ok") => e.ders[k] = e.ders[1])
   /\ Check(t, i, "CerDependsOnHistory", \A k \in K : (e.sts[k] = "ok" /\ e.sts[1] = "ok") => e.cers[k] = e.cers[1])
+  \* the history of the PROCESS (what was encoded before) must not matter either: the bytes are the reference's
+  /\ (IF e.sts[1] # "ok" \/ e.ders[1] = DER(T, v) THEN TRUE
+      ELSE /\ Check(t, i, "DerNotTheCanonicalBytes", FALSE)
+           /\ LET D == Explains(T, v, [codec |-> "der", def |-> TRUE, chunk |-> 0, wire |-> e.ders[1]])
+              IN IF D = {} THEN TRUE ELSE PrintT(<<"DEV", Cases[t].id, i, D>>))
 
 (* several decoders accepted the same input: same abstract value (C02) *)
 JudgeAgree(t, i, T, v, e) ==
